@@ -1,9 +1,107 @@
 import AioModel.Wire
-/-! Driver commands of property C13 (stub until the model exists). -/
+import AioModel.C13
+/-!
+Driver commands of property C13.
+
+`run <side> <autoclose> <autoping> <heartbeat|none> <recvTimeout|none> <closeTimeout> <limit> <fixed> <label>…`
+→ the state projection after set-up and after every label, joined by `;`.
+Labels: `tick`, `call.<t>.recv`, `call.<t>.close.<code>`, `call.<t>.send.<n>`, `call.<t>.ping`,
+`cancel.<t>`, `peer.text`, `peer.ping`, `peer.pong`, `peer.close.<code>`, `peer.bad`, `drop.<0|1>`,
+`pausew`, `resumew`, `adv.<ms>`.
+-/
 namespace Aio.Driver.C13
-open Aio Aio.Wire
+open Aio Aio.Wire Aio.C13
+
+def parseOptNat (s : String) : Option (Option Nat) :=
+  if s == "none" then some none else s.toNat?.map some
+
+def parseLabel (s : String) : Option Label :=
+  match s.splitOn "." with
+  | ["tick"] => some .tick
+  | ["pausew"] => some .pauseW
+  | ["resumew"] => some .resumeW
+  | ["call", t, "recv"] => do pure (.call (← t.toNat?) .recv)
+  | ["call", t, "close", c] => do pure (.call (← t.toNat?) (.close (← c.toNat?)))
+  | ["call", t, "send", n] => do pure (.call (← t.toNat?) (.send (← n.toNat?)))
+  | ["call", t, "ping"] => do pure (.call (← t.toNat?) .ping)
+  | ["cancel", t] => do pure (.cancel (← t.toNat?))
+  | ["peer", "text"] => some (.peer .text)
+  | ["peer", "ping"] => some (.peer .ping)
+  | ["peer", "pong"] => some (.peer .pong)
+  | ["peer", "close", c] => do pure (.peer (.close (← c.toNat?)))
+  | ["peer", "bad"] => some (.peer .bad)
+  | ["adv", d] => do pure (.adv (← d.toNat?))
+  | ["drop", "0"] => some (.drop false)
+  | ["drop", "1"] => some (.drop true)
+  | _ => none
+
+def showExc : Exc → String
+  | .cancelled => "cancelled"
+  | .timeout => "timeout"
+  | .pongTimeout => "pongtimeout"
+  | .reset => "reset"
+  | .conn => "conn"
+  | .eof => "eof"
+  | .wserr _ => "wserr"
+  | .assertion => "assert"
+  | .runtime => "runtime"
+
+def showMsg : Msg → String
+  | .text => "TEXT"
+  | .ping => "PING"
+  | .pong => "PONG"
+  | .close c => s!"CLOSE{c}"
+  | .closing => "CLOSING"
+  | .error => "ERROR"
+
+def showTask (x : Task) : String :=
+  match x.outcome, x.pc with
+  | _, .start | _, .recvRead | _, .recvPong | _, .sendDrain | _, .closeDrain1 | _, .closeDrain2
+  | _, .closeWait | _, .closeRead => "p"
+  | none, .done => "-"
+  | some (.recv (.msg m)), .done => "r:" ++ showMsg m
+  | some (.recv .closed), .done => "r:CLOSED"
+  | some (.closeRet b), .done => "c:" ++ showBool b
+  | some .sent, .done => "s:ok"
+  | some (.raised e), .done => "x:" ++ showExc e
+
+def showFrame : Frame → String
+  | .data => "T"
+  | .ping => "P"
+  | .pong => "O"
+  | .close c => s!"C{c}"
+
+def showFutRef : FutRef → String
+  | .none => "-"
+  | .pending _ => "p"
+  | .done => "d"
+  | .cancelled => "c"
+
+def proj (s : St) : String :=
+  let dw := match s.drain with | .none => "-" | .pending => "p" | .cancelled => "c"
+  let rw := match s.rwaiter with
+    | none => "-"
+    | some t => if (getT s t).fut = FutSt.pending then "p" else "d"
+  let fr := if s.frames.isEmpty then "-" else ",".intercalate (s.frames.map showFrame)
+  let cc := match s.closeCode with | none => "-" | some c => toString c
+  let ex := match s.exc with | none => "-" | some e => showExc e
+  s!"now={s.now} c={showBool s.closed} g={showBool s.closing} cc={cc} w={showBool s.waiting} cw={showFutRef s.closeWait} ex={ex} wc={showBool s.wClosing} tc={showBool s.trClosing} tl={showBool s.lost} pw={showBool s.paused} dw={dw} fr={fr} buf={s.buf.length} eof={showBool s.eof} rw={rw} hb={showBool s.hbCb} pg={showBool s.pongCb} nr={showBool s.needReset} pt={showBool s.pingTask.isSome} rdy={s.ready.length} tm={s.timers.length} t={"|".intercalate ((s.tasks.take appTasks).map showTask)}"
+
+def traceOf (s : St) (ls : List Label) : List String :=
+  let (_, acc) := ls.foldl (fun (p : St × List String) l =>
+    let s := step p.1 l
+    (s, proj s :: p.2)) (s, [proj s])
+  acc.reverse
 
 def handle : List String → String
+  | "run" :: side :: ac :: ap :: hb :: rt :: ct :: lim :: fx :: labs =>
+    let side? : Option Side := if side == "server" then some .server else if side == "client" then some .client else none
+    match side?, parseOptNat hb, parseOptNat rt, ct.toNat?, lim.toNat?, labs.mapM parseLabel with
+    | some side, some hb, some rt, some ct, some lim, some ls =>
+      let cfg : Cfg := { side := side, autoclose := parseBool ac, autoping := parseBool ap, heartbeat := hb,
+                         recvTimeout := rt, closeTimeout := ct, limit := lim, fixed := parseBool fx }
+      ";".intercalate (traceOf (init cfg) ls)
+    | _, _, _, _, _, _ => "bad-op"
   | _ => "bad-op"
 
 end Aio.Driver.C13
